@@ -136,17 +136,18 @@ func copyBlock(b *gtypes.Block) *gtypes.Block {
 	return out
 }
 
-// buildSource runs a live node of the same kind over L blocks.  Validators A..D have power 1; the block at height
-// changeAt-1 carries an admin request (signed by all four) raising A to power 5, so that from height changeAt on
-// the set in force differs: {A,B} alone then hold +2/3 (6/8) while {B,C,D} (3/8) do not, and before it is the
-// other way round (2/4 vs 3/4).
+// buildSource runs a live node of the same kind over L blocks.  Validators A..E have power 1 (total 5); the block
+// at height changeAt-1 carries an admin request (signed by all five) raising A to power 4 (total 8).  Both totals
+// are = 2 (mod 3), where "more than two thirds" is strictly more than the boundary tally 3 of 5 / 5 of 8.
+// Canonical commits are minimal and epoch-specific: {B,C,D,E} (4/5; 4/8 under the new set) before the change,
+// {A,B,C} (6/8; 3/5 under the old set) from it on.
 func buildSource(base string, L, changeAt int) (*source, error) {
 	s := &source{L: L, changeAt: changeAt}
-	for _, n := range []string{"A", "B", "C", "D"} {
+	for _, n := range []string{"A", "B", "C", "D", "E"} {
 		s.vals = append(s.vals, chainutil.NewKey("val-"+n))
 	}
 	s.ring = chainutil.Ring(s.vals...)
-	s.gen = chainutil.Genesis(s.vals, []int64{1, 1, 1, 1}, "adminOp")
+	s.gen = chainutil.Genesis(s.vals, []int64{1, 1, 1, 1, 1}, "adminOp")
 	dir := filepath.Join(base, fmt.Sprintf("src-%d-%d", L, changeAt))
 	app := newSimpleApp()
 	kit, err := chainutil.Assemble(app, s.gen, chainutil.NewKey("live-observer"), chainutil.Conf(dir, false))
@@ -168,7 +169,7 @@ func buildSource(base string, L, changeAt int) (*source, error) {
 		st := kit.State()
 		txs := []gtypes.Tx{gtypes.Tx(fmt.Sprintf("tx-%d-a", h)), gtypes.Tx(fmt.Sprintf("tx-%d-b", h))}
 		if h == changeAt-1 {
-			attr := &gtypes.ValidatorAttr{PubKey: s.vals[0].PubBytes(), Power: 5, Cmd: gtypes.ValidatorCmdUpdateNode, Addr: operator, Nonce: 0}
+			attr := &gtypes.ValidatorAttr{PubKey: s.vals[0].PubBytes(), Power: 4, Cmd: gtypes.ValidatorCmdUpdateNode, Addr: operator, Nonce: 0}
 			msg, _ := json.Marshal(attr)
 			cmd := &gtypes.AdminOPCmd{CmdType: gtypes.AdminOpChangeValidator, Msg: msg, Time: chainutil.GenesisTime}
 			for _, k := range s.vals {
@@ -219,12 +220,12 @@ func nameSet(names string) map[string]bool {
 // epoch2 reports whether height h lies at or after the validator-set change.
 func (s *source) epoch2(h int) bool { return s.changeAt > 1 && h >= s.changeAt }
 
-// canon: signers of the canonical commit of block h -- {B,C,D} (3/4) before the change, {A,B} (6/8) after it.
+// canon: signers of the canonical commit of block h -- {B,C,D,E} (4/5) before the change, {A,B,C} (6/8) after it.
 func (s *source) canon(h int) map[string]bool {
 	if s.epoch2(h) {
-		return nameSet("AB")
+		return nameSet("ABC")
 	}
-	return nameSet("BCD")
+	return nameSet("BCDE")
 }
 
 // commitBy returns a commit for source block h (1-based) by the chosen validators of the set in force.
@@ -281,11 +282,31 @@ func (s *source) serve(h int, class string, variant int) (*gtypes.Block, string)
 		}
 		// another commit than the canonical one that also holds +2/3 of the set in force
 		if epoch2 {
-			b.LastCommit = s.commitBy(h-1, "ACD") // 7/8
-			return b, "LastCommit by A,C,D (7/8) instead of the canonical A,B"
+			b.LastCommit = s.commitBy(h-1, "ACD") // 6/8
+			return b, "LastCommit by A,C,D (6/8) instead of the canonical A,B,C"
 		}
-		b.LastCommit = s.commitBy(h-1, "ABC") // 3/4
-		return b, "LastCommit by A,B,C (3/4) instead of the canonical B,C,D"
+		b.LastCommit = s.commitBy(h-1, "ABCD") // 4/5
+		return b, "LastCommit by A,B,C,D (4/5) instead of the canonical B,C,D,E"
+	case "boundaryvotes":
+		// exactly the largest tally that is NOT more than two thirds of the set in force
+		if h == 1 {
+			b.Header.Extra = []byte("w")
+			return b, "header Extra altered"
+		}
+		if epoch2 {
+			if variant%2 == 0 {
+				b.LastCommit = s.commitBy(h-1, "AB") // 5/8
+				return b, "LastCommit by A,B: 5 of 8"
+			}
+			b.LastCommit = s.commitBy(h-1, "AE") // 5/8
+			return b, "LastCommit by A,E: 5 of 8"
+		}
+		if variant%2 == 0 {
+			b.LastCommit = s.commitBy(h-1, "CDE") // 3/5
+			return b, "LastCommit by C,D,E: 3 of 5"
+		}
+		b.LastCommit = s.commitBy(h-1, "ABD") // 3/5
+		return b, "LastCommit by A,B,D: 3 of 5"
 	case "fewvotes":
 		if h == 1 {
 			b.LastCommit = &gtypes.Commit{Precommits: []*gtypes.Vote{nil}}
@@ -295,11 +316,11 @@ func (s *source) serve(h int, class string, variant int) (*gtypes.Block, string)
 		case 0, 1:
 			// the quorum of the OTHER epoch: sufficient under the other validator set, not under the one in force
 			if epoch2 {
-				b.LastCommit = s.commitBy(h-1, "BCD") // 3/8
-				return b, "LastCommit by B,C,D only (3/8; would be 3/4 under the old set)"
+				b.LastCommit = s.commitBy(h-1, "BCDE") // 4/8
+				return b, "LastCommit by B,C,D,E only (4/8; would be 4/5 under the old set)"
 			}
-			b.LastCommit = s.commitBy(h-1, "AB") // 2/4
-			return b, "LastCommit by A,B only (2/4; would be 6/8 under the new set)"
+			b.LastCommit = s.commitBy(h-1, "AB") // 2/5
+			return b, "LastCommit by A,B only (2/5; would be 5/8 under the new set)"
 		case 2:
 			for i := range b.LastCommit.Precommits {
 				b.LastCommit.Precommits[i] = nil
@@ -309,7 +330,7 @@ func (s *source) serve(h int, class string, variant int) (*gtypes.Block, string)
 			b.LastCommit.Precommits = nil
 			return b, "empty precommit list"
 		case 4:
-			c := s.commitBy(h-1, "ABCD")
+			c := s.commitBy(h-1, "ABCDE")
 			v := *c.Precommits[1]
 			v.Signature = s.ring[string(s.valsets[h-2].Validators[1].Address)].Priv.Sign([]byte("something else"))
 			c.Precommits[1] = &v
@@ -332,7 +353,7 @@ func (s *source) serve(h int, class string, variant int) (*gtypes.Block, string)
 			b.Header.Extra = []byte("z")
 			return b, "header Extra altered"
 		}
-		c := s.commitBy(h-1, "ABCD")
+		c := s.commitBy(h-1, "ABCDE")
 		n := len(c.Precommits)
 		switch variant % 3 {
 		case 0:
